@@ -60,7 +60,7 @@ class FIBDemux(Device):
         self._fib = val
 
     def put(self, packet):
-        if not self._fib:
+        if self._fib is None:
             raise ValueError('fib of FIBDemux is None')
         self.packets_recevied += 1
         flow_id = packet.flow_id
@@ -69,9 +69,10 @@ class FIBDemux(Device):
             self.ends[flow_id].put(packet)
         else:
             try:
-                assert self.outs
-                self.outs[self._fib[packet.flow_id]].put(packet)
-            except (KeyError, IndexError, ValueError) as exc:
+                out = self.outs[self._fib[flow_id]]
+            except (KeyError, IndexError, TypeError) as exc:
+                # unknown flow (or no such output): fall back to the default
                 print("FIB Demux Error: " + str(exc))
-                if self.default_out:
-                    self.default_out.put(packet)
+                out = self.default_out
+            if out:
+                out.put(packet)
